@@ -79,6 +79,7 @@ Return(ret) ==
 
 \* node.GetProcessor().Execute + the early-response hand-over
 ProcStep ==
+    /\ steps <= StepCap
     /\ phase \in {"walk", "resume"} /\ stack # <<>>
     /\ LET top == stack[Len(stack)]
            kind == KindAny(cfg, top.n) IN
@@ -132,7 +133,7 @@ WalkOver ==
        ELSE Finish("ok") /\ UNCHANGED <<sc, sdir>>
     /\ UNCHANGED <<cfg, fname, txdir, b, exec, steps>>
 
-Next == (steps <= StepCap) /\ (Start \/ ProcStep \/ EdgeStep \/ WalkOver)
+Next == Start \/ ProcStep \/ EdgeStep \/ WalkOver
 
 Spec == Init /\ [][Next]_vars
 
